@@ -43,6 +43,9 @@ def gen_scenario(rng):
         "asyncore_use_poll": rng.random() < 0.5,
         "send_bytes": rng.choice([1, 1, 64, 18000]),
     }
+    if rng.random() < 0.2:
+        # whether socket errors are logged must not change what the server does about them
+        adj["log_socket_errors"] = False
     wm = rng.choice([None, None, 0, 1, 256])
     if wm is not None:
         adj["outbuf_high_watermark"] = wm
